@@ -612,6 +612,21 @@ class SecretDocGen:
             node.clear()
             node.update(new)
             planted.append((segs, node))
+        # keys the path builder may be unable to address (the tool must
+        # then fail, never skip the secret and claim success)
+        if planted and rng.random() < 0.08:
+            segs, node = rng.choice(planted)
+            holder = doc
+            for kind, ref in segs[:-1]:
+                holder = holder["i"][ref] if kind == "i" else \
+                    next(v for k, v in holder["i"] if k["v"] == ref)
+            if holder["t"] == "m":
+                exotic = rng.choice([1.5, True, None, "&amp", "/etc/tls.key"])
+                if not any(k["v"] == exotic and type(k["v"]) is type(exotic)
+                           for k, _v in holder["i"]):
+                    for pair in holder["i"]:
+                        if pair[1] is node:
+                            pair[0] = gd.S(exotic)
         # a second, distinct collection with equal content (hence the very
         # same ciphertext): duplicated records are common in real files
         if planted and rng.random() < 0.2:
